@@ -27,7 +27,7 @@ func c01Opts() ship1Opts {
 }
 
 func setupC01(x *Ctx) {
-	if x.Chance("c01-hub", 0.2) {
+	if x.Chance("c01-hub", 0.03) {
 		c01Hub(x)
 		return
 	}
